@@ -1,5 +1,5 @@
 (* Entry points evaluated by the correspondence harness (props/C07.py). *)
-From PV Require Export C07.SpecLife.
+From PV Require Export C07.SpecLife C07.SpecBlock.
 
 Definition jq (q : Q) : jv := let r := Qred q in JL [JZ (Qnum r); JZ (Zpos (Qden r))].
 Definition jqs (l : list Q) : jv := JL (map jq l).
@@ -130,3 +130,27 @@ Definition run_script_raw (clk : positive) (imp : option (Z * bytes)) (evs : lis
 Definition run_proc (clk : positive) (evs : list (Z * pevent)) : jv :=
   JL [ JL (map (jv_outcome jq) (proc_run clk [] evs));
        JL (map (jv_outcome jq) (spec_proc_run clk [] evs)) ].
+
+(* Process-level histories with oneshot()/as_dict()/process_iter(attrs) blocks over several objects *)
+Definition jptimes (t : ptimes) : jv :=
+  JL [jq (pt_user t); jq (pt_system t); jq (pt_children_user t); jq (pt_children_system t); jq (pt_iowait t)].
+Definition jpbres (r : pbres) : jv :=
+  match r with BRTimes t => JC "PTimes" [jptimes t] | BRPct q => JC "Pct" [jq q] end.
+Definition mk_sr (u s cu cs io : Z) : statrec := {| sr_u := u; sr_s := s; sr_cu := cu; sr_cs := cs; sr_io := io |}.
+Definition mk_bp (o : Z) (i : ival) (n : Z) (a b : preading) : Z * pbev :=
+  (o, BPercent {| pe_iv := i; pe_ncpu := n; pe_r1 := a; pe_r2 := b |}).
+Fixpoint spec_pbm_run (clk : positive) (m : amap ghost) (l : list (Z * pbev)) : list (outcome pbres) :=
+  match l with
+  | [] => []
+  | (o, ev) :: r =>
+    let g := match lookup o m with Some s => s | None => g_init end in
+    let '(g', x) := spec_pb_step clk g ev in
+    match x with Some y => y :: spec_pbm_run clk (update o g' m) r | None => spec_pbm_run clk (update o g' m) r end
+  end.
+Definition of_obj (o : Z) (l : list (Z * pbev)) : list pbev := map snd (filter (fun x => fst x =? o) l).
+Definition run_pb (clk : positive) (objs : list Z) (l : list (Z * pbev)) : jv :=
+  JL [ JL (map (jv_outcome jpbres) (pbm_run clk [] l));
+       JL (map (jv_outcome jpbres) (spec_pbm_run clk [] l));
+       jbool (forallb (fun o => const_blocks 0 None (of_obj o l)) objs);
+       (* the same calls with every block marker removed *)
+       JL (map (jv_outcome jpbres) (pbm_run clk [] (filter (fun x => match snd x with BEnter | BExit => false | _ => true end) l))) ].
